@@ -20,14 +20,19 @@ CONSTANTS
     Durs,       \* set of tick durations
     Hist,       \* set of max_history values; 0 stands for "unset" (None)
     MaxNest,    \* maximal call nesting depth
+    SyncIds,    \* ids of the functions decorated with trace(sync=True): a
+                \* world barrier when the call begins and one when it returns
+                \* (a call that raises never reaches the second barrier)
     MaxDepth
 \* END-CONSTANTS
 
-VARIABLES table, order, stack, now, h
-vars == <<table, order, stack, now, h>>
+VARIABLES table, order, stack, now, h, nbar
+vars == <<table, order, stack, now, h, nbar>>
+\* nbar: number of world barriers this process has entered
 \* table: [index -> Seq(dur)] for the names in `order` (insertion order of keys)
 \* stack: calls in progress, innermost last: [f (id), name, start]
 Init == table = <<>> /\ order = <<>> /\ stack = <<>> /\ now = 0 /\ h = <<>>
+        /\ nbar = 0
 
 Names == {order[i] : i \in DOMAIN order}
 Idx(nm) == CHOOSE i \in DOMAIN order : order[i] = nm
@@ -45,12 +50,13 @@ Begin(f) ==
     /\ Len(h) + Len(stack) + 2 <= MaxDepth /\ Len(stack) < MaxNest
     /\ stack' = Append(stack, [f |-> f.id, name |-> f.name, start |-> now])
     /\ UNCHANGED <<table, order, now>>
+    /\ nbar' = nbar + (IF f.id \in SyncIds THEN 1 ELSE 0)
     /\ Rec("begin", f.id, 0, FALSE, <<>>)
 
 Tick(d) ==
     /\ Room /\ stack # <<>>
     /\ now' = now + d
-    /\ UNCHANGED <<table, order, stack>>
+    /\ UNCHANGED <<table, order, stack, nbar>>
     /\ Rec("tick", 0, d, FALSE, <<>>)
 
 End(raises) ==
@@ -66,6 +72,8 @@ End(raises) ==
                   ELSE /\ table' = Append(table, <<d>>)
                        /\ order' = Append(order, top.name)
     /\ UNCHANGED now
+    /\ nbar' = nbar + (IF stack[Len(stack)].f \in SyncIds /\ ~raises
+                       THEN 1 ELSE 0)
     /\ Rec("end", 0, 0, raises, <<>>)
 
 \* report: sequence of [name, num, den] (statistic = num / den) in table order
@@ -77,13 +85,13 @@ Report(avg, k) ==
 
 Get(avg, k) ==
     /\ Room
-    /\ UNCHANGED <<table, order, stack, now>>
+    /\ UNCHANGED <<table, order, stack, now, nbar>>
     /\ Rec("get", 0, k, avg, Report(avg, k))
 
 Clear ==
     /\ Room /\ order # <<>>
     /\ table' = <<>> /\ order' = <<>>
-    /\ UNCHANGED <<stack, now>>
+    /\ UNCHANGED <<stack, now, nbar>>
     /\ Rec("clear", 0, 0, FALSE, <<>>)
 
 Next ==
@@ -108,6 +116,10 @@ NoEmptyEntries == \A i \in DOMAIN table : table[i] # <<>>
 UniqueKeys == \A i, j \in DOMAIN order : i # j => order[i] # order[j]
 \* a sample is the duration of its own call: never longer than the elapsed time
 SamplesBounded == \A i \in DOMAIN table : \A j \in DOMAIN table[i] : table[i][j] <= now
+\* barriers come in pairs around completed synced calls: never more than two
+\* per begun synced call, never fewer than one
+SyncBegun == Len(SelectSeq(h, LAMBDA e : e.act = "begin" /\ e.f \in SyncIds))
+BarriersBounded == nbar >= SyncBegun /\ nbar <= 2 * SyncBegun
 \* nesting discipline: starts are non-decreasing along the stack
 StackOrdered == \A i \in 1..(Len(stack) - 1) : stack[i].start <= stack[i + 1].start
 
@@ -123,7 +135,7 @@ AllReports ==
     [a \in BOOLEAN |-> [k \in Hist |-> Report(a, k)]]
 EmitState ==
     IF stack = <<>> /\ order # <<>>
-    THEN PrintT(ToJson([h |-> h,
+    THEN PrintT(ToJson([h |-> h, nbar |-> nbar,
             q |-> {[avg |-> a, k |-> k, exp |-> Report(a, k)] :
                       a \in BOOLEAN, k \in Hist}]))
     ELSE TRUE
